@@ -122,6 +122,12 @@ theorem nodeCmp_mono (c : Ctx) (l r : Bytes) (sl sr : Bool) (o : Op) : CMono c (
           | none => simp only; exact get_mono c r
           | some t => simp only; exact (get_mono c r).trans (cmp_mono _ l o t)
 
+theorem textBound_mono (s : Bytes) (c1 : Ctx) : CMono c1 (textBound s c1).2 := by
+  unfold textBound
+  split
+  · exact CMono.of_eq rfl rfl rfl
+  · cases parseInt64Lit s <;> exact CMono.of_eq rfl rfl rfl
+
 theorem cloopRange_mono (c : Ctx) (st : Bool) (b : Bytes) : CMono c (cloopRange c st b).2 := by
   unfold cloopRange
   by_cases h : st = true
@@ -132,7 +138,7 @@ theorem cloopRange_mono (c : Ctx) (st : Bool) (b : Bytes) : CMono c (cloopRange 
     | some e => simp only; exact get_mono c b
     | none =>
       simp only
-      cases (c.get b).1 <;> first | exact get_mono c b | exact (get_mono c b).trans (CMono.of_eq rfl rfl rfl)
+      cases (c.get b).1 <;> first | exact get_mono c b | exact (get_mono c b).trans (CMono.of_eq rfl rfl rfl) | exact (get_mono c b).trans (textBound_mono _ _)
 
 theorem loopBounds_mono (c : Ctx) (ls : CLoopSpec) : CMono c (loopBounds c ls).1 := by
   unfold loopBounds
